@@ -4,6 +4,7 @@
 package world
 
 import (
+	"bytes"
 	"crypto/sha256"
 	"encoding/binary"
 	"fmt"
@@ -233,4 +234,15 @@ func CopyState(src sdk.Context, srcKeys []storetypes.StoreKey, dst sdk.Context, 
 		}
 		it.Close()
 	}
+}
+
+// ExecutorsWithSpare lists the acting executor first, followed by a second listed executor whose address is
+// smaller: the list is not sorted, and the executor that does the work is not its last entry.
+func ExecutorsWithSpare(acting string) []string {
+	for _, n := range []string{"e2", "e3", "e4", "e5", "e6", "e7", "e8", "spare-executor"} {
+		if bytes.Compare(Addr(n), Addr(acting)) < 0 {
+			return []string{acting, n}
+		}
+	}
+	return []string{acting, "e2"}
 }
